@@ -122,6 +122,20 @@ def confirm(d):
             rc, out = sh("go test -mod=mod -vet=off -count=1 %s 2>&1 | grep -v '^ok\\|no test files' | tail -15" % " ".join(extra or pk),
                          cwd=os.path.join(wt, m), timeout=3000)
             failed = sorted(set(re.findall(r"^FAIL\s+(github\.com\S+)", out, re.M)) - {"github.com/synnaxlabs/x/io/fs/testutil"})
+            # packages that bind fixed TCP ports (aspen root) collide with other test runs in this sandbox: retry alone
+            for attempt in range(3):
+                if not failed:
+                    break
+                still = []
+                for pkgpath in failed:
+                    rel = "./" + pkgpath.split("/", 3)[3] if pkgpath.count("/") >= 3 else "."
+                    if m in ("x/go", "alamos/go", "arc/go", "freighter/go"):
+                        rel = "./" + "/".join(pkgpath.split("/")[3:]) if pkgpath.count("/") >= 3 else "."
+                    rc2, out2 = sh("go test -mod=mod -vet=off -count=1 %s 2>&1 | tail -5" % rel, cwd=os.path.join(wt, m), timeout=1500)
+                    if not re.search(r"^ok\s", out2, re.M):
+                        still.append(pkgpath)
+                        out = out2
+                failed = still
             # x/io/fs/testutil::TestTestutil is not in the stable baseline (depends on the shared OS temp dir)
             res["tests"][m] = {"pkgs": extra or pk, "wall_s": round(time.time() - t), "failed_pkgs": failed,
                                "non_ok_output": (out.strip()[-1500:] if failed else "")}
